@@ -434,4 +434,47 @@ theorem expired_reports_bounded {tr : List Ev} (hacc : accepts tr = true) (pre p
   unfold expiryDue; omega
 
 
+/-! ### the liveness half of C04 as far as it holds -/
+
+
+theorem finishOk_stored_mono (s : S) (it : Item) {x : Nat × Nat × Nat} (h : x ∈ s.stored) : x ∈ (finishOk s it).stored := by
+  cases it with
+  | ackI p m => simp [finishOk, h]
+  | recI p m => simp only [finishOk]; rw [(waitRel_ord s p m).1]; exact h
+  | compI p m => simp [finishOk, h]
+
+theorem drain_stored_mono : ∀ (items : List Item) (t : S) {x : Nat × Nat × Nat}, x ∈ t.stored → x ∈ (drain finishOk t items).stored := by
+  intro items; induction items with
+  | nil => intro t x h; exact h
+  | cons it rest ih => intro t x h; exact ih _ (finishOk_stored_mono t it h)
+
+theorem drain_stores_acked : ∀ (items : List Item) (t : S) {p m : Nat},
+    (Item.ackI p m ∈ items → (1, p, m) ∈ (drain finishOk t items).stored) ∧ (Item.compI p m ∈ items → (2, p, m) ∈ (drain finishOk t items).stored) := by
+  intro items; induction items with
+  | nil => intro t p m; exact ⟨by simp, by simp⟩
+  | cons it rest ih =>
+    intro t p m
+    constructor
+    · intro hmem
+      simp only [List.mem_cons] at hmem
+      rcases hmem with rfl | hmem
+      · exact drain_stored_mono rest _ (by simp [finishOk])
+      · exact (ih (finishOk t it)).1 hmem
+    · intro hmem
+      simp only [List.mem_cons] at hmem
+      rcases hmem with rfl | hmem
+      · exact drain_stored_mono rest _ (by simp [finishOk])
+      · exact (ih (finishOk t it)).2 hmem
+
+/-- **C04, the liveness half as far as it holds (partial: the hypothesis is that the write succeeds)**: when the write that carries the PUBACK of a
+QoS 1 message — or the PUBCOMP of a QoS 2 message — completes successfully, the message is in the receive channel, from which `async_receive`
+takes it in first-in-first-out order. The known findings F24–F26 are exactly the cases where that write ends with try_again. -/
+theorem acknowledged_is_stored_partial {s s' : S} (h : step s .wrOk = some s') {p m : Nat} :
+    (Item.ackI p m ∈ s.batch → (1, p, m) ∈ s'.stored) ∧ (Item.compI p m ∈ s.batch → (2, p, m) ∈ s'.stored) := by
+  simp only [step] at h; split at h
+  · simp only [Option.some.injEq] at h; subst h
+    exact drain_stores_acked s.batch _
+  · simp at h
+
+
 end Mqtt5V.Proofs.TraceIn
